@@ -359,6 +359,75 @@ func runC08(c *Ctx) {
 		}
 	}
 
+	// ---------------------------------------------------------------- C08.5
+	// (defect D36) Moving on to the next message after a read of the current message's source is
+	// justified only by io.EOF: the source may also deliver (0, nil).  Every path from such a
+	// read to the call that prepares the next message knows errors.Is(err, io.EOF).
+	c.Rule("C08.5", "the next message is prepared after a source read only when that read reported io.EOF", 1)
+	for _, ra := range ras {
+		fn := ra.read
+		n := 0
+		for _, call := range Calls(fn) {
+			if !ra.isPayloadRead(call) {
+				continue
+			}
+			cv, ok := call.(*ssa.Call)
+			if !ok {
+				continue
+			}
+			// the calls that prepare the next message: static module callees that read the body
+			isNext := func(in ssa.Instruction) bool {
+				ci, ok := in.(ssa.CallInstruction)
+				if !ok {
+					return false
+				}
+				sc := ci.Common().StaticCallee()
+				if sc == nil || !p.inScope(sc) || sc == fn {
+					return false
+				}
+				nm := N(sc)
+				return nm == "prepareNext" || nm == "readRequestMessage"
+			}
+			paths, okE := EnumPaths(cv.Block(), nil, func(in ssa.Instruction) bool { return IsReturn(in) || isNext(in) }, 0)
+			if !okE {
+				c.Unknown("C08.5", FuncName(fn), "paths", call.Pos(), "too many paths")
+				continue
+			}
+			bad, seen := 0, 0
+			for _, cp := range paths {
+				if !isNext(cp.End) {
+					continue
+				}
+				seen++
+				eof := false
+				for cond, truth := range cp.Truth {
+					if ci, ok := cond.(*ssa.Call); ok && IsCallTo(ci, "errors.Is") && truth {
+						if u, ok := ci.Call.Args[1].(*ssa.UnOp); ok {
+							if g, ok := u.X.(*ssa.Global); ok && g.Name() == "EOF" {
+								eof = true
+							}
+						}
+					}
+				}
+				// a buffer source (bytes.Buffer.Read) reports io.EOF exactly when empty: its error is ignored by design
+				if IsCallTo(call, "(*bytes.Buffer).Read") {
+					eof = true
+				}
+				if !eof {
+					bad++
+				}
+			}
+			if seen == 0 {
+				continue
+			}
+			n++
+			c.Check(bad == 0, "C08.5", FuncName(fn), "next-message-only-after-eof", call.Pos(),
+				"every path from this source read to preparing the next message knows the read reported io.EOF",
+				itoa(bad)+" path(s) go on to the next message after a source read that did not report io.EOF (e.g. (0, nil)): the rest of the current message is dropped or parsed as an envelope")
+		}
+		_ = n
+	}
+
 	// ---------------------------------------------------------------- C08.3
 	c.Rule("C08.3", "bytes obtained from the per-message source are always handed to the caller", 3)
 	for _, ra := range ras {
